@@ -168,7 +168,7 @@ def sPart (op : EPart) (cur orig : GoVal) : Out :=
     match sParams params cur orig with
     | .inl o => o
     | .inr ps =>
-      let recv := toDecimalIfNumber (normalizeValue cur)
+      let recv := toDecimalIfNumber (objectAsMap (normalizeValue cur))
       let nm := String.fromUTF8! (ByteArray.mk name.toArray)
       if !knownFuncs.contains nm then .err else
       match pureFunc nm ps recv with
@@ -218,11 +218,13 @@ def sLParts (ty : Bytes) (ops : List ELPart) (cur orig : GoVal) : Out :=
   | [] => if ty == tyAnd then okBool true else if ty == tyOr then okBool false else .err
   | op :: rest =>
     match sLPart op cur orig with
-    | .ok (.bool false b) =>
-      if ty == tyAnd && !b then okBool false
-      else if ty == tyOr && b then okBool true
-      else sLParts ty rest cur orig
-    | .ok _ => okBool false
+    | .ok v =>
+      (match normalizeValue v with
+       | .bool false b =>
+         if ty == tyAnd && !b then okBool false
+         else if ty == tyOr && b then okBool true
+         else sLParts ty rest cur orig
+       | _ => okBool false)
     | o => o
 termination_by structural ops
 
